@@ -93,7 +93,7 @@ def run(tier, seed):
     res.rule = ("shape grid rows in {1,2,4,8,16(,32,64)} x cols in {0..17} x dim in {1,3} x batch in {1,2,3,4,7,cols,cols+1} x "
                 "backend in {seq, avx, avx512, default wrapper} x threads in {0,1,2,3,16}; every element of the tree buffer is "
                 "compared, buffers are exact-size with redzones, each call runs in a forked child; distinct = distinct shape")
-    res.assumptions = ["rows a power of two (as the property states); hand model tied to the code on the executed shapes only",
+    res.assumptions = ["rows a power of two (as the property states); hand model tied to the code by execution on the listed shapes — and ALSO by bridge theorems: the functions are regenerated from the source on every run and proved equal to the hand model (C08_generated_*), so the theorems hold for the current text, not only on the executed cases",
                        "the six builders and the two default wrappers are also TRANSLATED from the C++ on every run (Gen/MerkleGen.lean: "
                        "OpenMP loops sequentially, while loop fuel-bounded, floor() on doubles holding integers) and executed against "
                        "the code on the same grid",
